@@ -41,7 +41,7 @@ CHECKS = {
  "C18": dict(
    text="Bounded symbolic model checking of the real json.Equal with the jx decoder underneath: pairs and triples of JSON texts built from 31 value templates whose leaves "
         "(digits, string bytes, escape spellings, member names, whitespace bytes) are symbolic; asserts no error on well-formed texts, reflexivity, symmetry, transitivity and "
-        "agreement with equality of the denoted abstract values (objects unordered; objects of up to three members with independent names, so a repeated name around a distinct one is inside); single-byte corruption for totality. Structure and integer numbers only: "
+        "agreement with equality of the denoted abstract values (objects unordered; objects of up to three members with independent names, so a repeated name around a distinct one is inside); single-byte corruption for totality; and the enum clause: the REAL jsonschema (*Parser).Parse on a schema whose enum holds two or three members of six shapes with symbolic leaves and whitespace is refused as a duplicate exactly when two members denote the same value. Structure and integer numbers only: "
         "number spellings with '.', 'e', 'E' (ParseFloat/big.Rat) are outside and NOT decided.",
    design="4 C18", technique="symbolic execution of go/ssa + SMT, differential against abstract-value equality"),
  "C03": dict(
